@@ -38,17 +38,24 @@ func sanitizeSelectionSet(ctx *PlanningContext, selectionSet ast.SelectionSet, i
 			childSelectionSet, sf := sanitizeSelectionSet(ctx, s.SelectionSet, insertionPoint)
 			scrubFields.Merge(sf)
 
-			var addedFields []string
-			childSelectionSet, addedFields = addScrubFieldsToSelectionSet(ctx, childSelectionSet, s.TypeCondition)
-			for _, f := range addedFields {
-				scrubFields.Set(insertionPoint, s.TypeCondition, f)
+			// helper fields are added to the fragment only if it stays a fragment: a fragment on an
+			// object is unfolded into its parent, which gets its own helpers (and only if the
+			// client did not select them there)
+			addHelpers := func() {
+				var addedFields []string
+				childSelectionSet, addedFields = addScrubFieldsToSelectionSet(ctx, childSelectionSet, s.TypeCondition)
+				for _, f := range addedFields {
+					scrubFields.Set(insertionPoint, s.TypeCondition, f)
+				}
 			}
 
 			switch s.ObjectDefinition.Kind {
 			case ast.Interface:
+				addHelpers()
 				childSelectionSet = sanitizeInterfaceInlineFragment(ctx, childSelectionSet, s)
 				result = addSelectionSetToSanitizedResult(result, childSelectionSet...)
 			case ast.Union:
+				addHelpers()
 				childSelectionSet = sanitizeUnionInlineFragment(ctx, childSelectionSet, s)
 				result = addSelectionSetToSanitizedResult(result, childSelectionSet...)
 			default:
